@@ -142,6 +142,13 @@ Push(stack, L, R) ==     \* R is the token being consumed, L its left neighbour 
     [] R \in {"]", ")", ">", "}"} -> IF stack = <<>> THEN stack ELSE SubSeq(stack, 1, Len(stack) - 1)
     [] OTHER -> stack
 
+(* j is the index of a "." token; index of the first component of the dotted name it belongs to
+   (j itself for a leading dot) *)
+RECURSIVE HeadOf(_, _)
+HeadOf(sk, j) ==
+  IF j = 1 \/ sk.toks[IF j > 1 THEN j - 1 ELSE 1][2] # "w" THEN j
+  ELSE IF j >= 3 /\ sk.toks[IF j >= 3 THEN j - 2 ELSE 1][1] = "." THEN HeadOf(sk, j - 2) ELSE j - 1
+
 ClassOf(sk, g, stack) ==
   LET n  == NGaps(sk)
       L  == IF g = 0 THEN "" ELSE sk.toks[g][1]
@@ -152,6 +159,8 @@ ClassOf(sk, g, stack) ==
   IN CASE g = 0 -> "bof"
        [] g = n -> "eof"
        [] Lc = "s" /\ Rc = "s" -> "adjacent-strings"
+       [] (L = "." \/ R = ".") /\ sk.toks[HeadOf(sk, IF L = "." THEN g ELSE g + 1)][1] \in {"export", "local"}
+                               -> "name-part-kw"    \* inside a dotted name that starts with a contextual keyword
        [] L = "." \/ R = "." -> "name-part"
        [] \E j \in DOMAIN stack : stack[j] = "lit" -> "in-msglit"
        [] top = "br"  -> "in-brackets"
